@@ -332,7 +332,7 @@ def _ctor_threshold(u, f):
     """T such that every stored coordinate is < T: the constructor's rejection predicate (its inner lambda's `if`)"""
     rec = f.qname.rsplit('::', 1)[0]
     for lam in u.functions.values():
-        if lam.tname == MD + '::MultidimensionalPGMIndex::(lambda)::operator()::(lambda)::operator()' and lam.qname.startswith(rec + '::'):
+        if lam.tname.startswith(MD + '::MultidimensionalPGMIndex::(lambda)') and lam.name == 'operator()' and lam.qname.startswith(rec + '::') and lam.cfg:
             g = graph(lam)
             for b in g.reach:
                 c = g.cond(b)
